@@ -632,6 +632,31 @@ vbi_chsw_reset(vbi_decoder *vbi, vbi_nuid identified)
 }
 
 /**
+ * @internal
+ * @param vbi VBI decoding context.
+ *
+ * @returns
+ * TRUE while a channel switch is suspected, that is while the countdown
+ * started by dropped frames in vbi_decode() or by vbi_channel_switched()
+ * is running. A network identified in this state must go through
+ * vbi_chsw_reset() even when no network was identified before, or the
+ * countdown will expire later and revoke the network just announced.
+ */
+vbi_bool
+vbi_chsw_pending(vbi_decoder *vbi)
+{
+	vbi_bool pending;
+
+	pthread_mutex_lock(&vbi->chswcd_mutex);
+
+	pending = (vbi->chswcd > 0);
+
+	pthread_mutex_unlock(&vbi->chswcd_mutex);
+
+	return pending;
+}
+
+/**
  * @param vbi VBI decoding context.
  * @param nuid Set to zero for now.
  * 
